@@ -24,6 +24,8 @@ import (
 	"github.com/bilibili/smgo/utils"
 	"pgregory.net/rapid"
 	"verif.local/ref/deephash"
+	"verif.local/ref/gcmref"
+	"verif.local/ref/sm4ref"
 	"verif.local/ref/gen"
 	"verif.local/ref/sm2gen"
 	"verif.local/ref/stats"
@@ -94,6 +96,16 @@ func (s *c17Shared) run(op c17Op) []byte {
 		bad[len(bad)-1] ^= 1
 		pt, err := s.aeads[m.aead].Open(nil, m.nonce, bad, m.aad)
 		return append([]byte(fmt.Sprint(err != nil, "|")), pt...)
+	case "derive-aead":
+		// a short-lived AEAD derived from the SHARED Block (it becomes garbage right after the call)
+		a, err := cipher.NewGCM(s.block)
+		if err != nil {
+			return []byte(err.Error())
+		}
+		return a.Seal(nil, s.blocks[op.i][:12], s.data[op.i], s.blocks[(op.i+1)%3])
+	case "gc":
+		runtime.GC()
+		return nil
 	case "newcipher":
 		b, err := sm4.NewCipher(s.key)
 		if err != nil {
@@ -147,11 +159,11 @@ func (s *c17Shared) run(op c17Op) []byte {
 	panic("unknown op " + op.kind)
 }
 
-var c17Kinds = []string{"encrypt", "decrypt", "seal", "seal", "open", "open", "open-forged", "newcipher", "sign", "verify", "verify", "verify-bad", "derive", "genkey", "signmsg", "hash", "sumsm3", "oncurve"}
+var c17Kinds = []string{"encrypt", "decrypt", "seal", "seal", "open", "open", "open-forged", "newcipher", "derive-aead", "derive-aead", "gc", "sign", "verify", "verify", "verify-bad", "derive", "genkey", "signmsg", "hash", "sumsm3", "oncurve"}
 
 func TestVerif_C17_Concurrent(t *testing.T) {
 	rec := stats.Get("C17", "concurrent")
-	rec.Rule("rapid draws a workload plan: 2..16 goroutines x 3..25 operations from {Encrypt, Decrypt on ONE shared Block; Seal, Open, forged Open on shared AEADs (nonce 12/16/130 bytes, tag 16/12) over SHARED nonce/aad/plaintext/ciphertext buffers; NewCipher+NewGCM on the shared key; SignHashed / Sign+Verify with per-operation deterministic readers, VerifyHashed (good and bad), DerivePublic, GenerateKey, CheckOnCurve/TestPrivateKey on shared keys; independent sm3 hashes and SumSM3 over shared data}; message lengths from the kernel-combination generator. The plan runs serially first (expected results), then concurrently behind a barrier with GOMAXPROCS=16 under the race detector. Oracles: each concurrent result == its serial result; all shared buffers byte-identical afterwards; the plan re-run serially afterwards reproduces the original results (a deep hash of every package-level variable of the six packages is taken before/after and differences are reported, not judged: a synchronised cache is legal); no race report. Non-trivial: >= 2 goroutines operate on the same message buffer or the same AEAD/Block (true for essentially every plan); distinct by plan.")
+	rec.Rule("rapid draws a workload plan: 2..16 goroutines x 3..25 operations from {Encrypt, Decrypt on ONE shared Block; Seal, Open, forged Open on shared AEADs (nonce 12/16/130 bytes, tag 16/12) over SHARED nonce/aad/plaintext/ciphertext buffers; NewCipher+NewGCM on the shared key; short-lived AEADs derived from the SHARED Block and dropped, explicit GC cycles (finalizers); SignHashed / Sign+Verify with per-operation deterministic readers, VerifyHashed (good and bad), DerivePublic, GenerateKey, CheckOnCurve/TestPrivateKey on shared keys; independent sm3 hashes and SumSM3 over shared data}; message lengths from the kernel-combination generator. The plan runs serially first (expected results), then concurrently behind a barrier with GOMAXPROCS=16 under the race detector. Oracles: each concurrent result == its serial result; all shared buffers byte-identical afterwards; the plan re-run serially afterwards reproduces the original results (a deep hash of every package-level variable of the six packages is taken before/after and differences are reported, not judged: a synchronised cache is legal); no race report. Non-trivial: >= 2 goroutines operate on the same message buffer or the same AEAD/Block (true for essentially every plan); distinct by plan.")
 	t.Cleanup(stats.FlushAll)
 	globals := c17Globals()
 	rapid.Check(t, func(t *rapid.T) {
@@ -212,7 +224,7 @@ func TestVerif_C17_Concurrent(t *testing.T) {
 				case "seal", "open", "open-forged":
 					op.i = gen.Uniform(t, "msg", 0, nm-1)
 					touch[fmt.Sprint("msg", op.i)]++
-				case "encrypt", "decrypt", "hash", "sumsm3":
+				case "encrypt", "decrypt", "hash", "sumsm3", "derive-aead", "gc":
 					op.i = gen.Uniform(t, "idx", 0, 2)
 				case "newcipher":
 					op.i, op.j = gen.Uniform(t, "idx", 0, 2), gen.Uniform(t, "msg", 0, nm-1)
@@ -226,11 +238,32 @@ func TestVerif_C17_Concurrent(t *testing.T) {
 				nops++
 			}
 		}
-		// serial pass (also the warm-up that absorbs lazy initialisation)
+		// serial pass (also the warm-up that absorbs lazy initialisation); SM4 results are additionally compared with the
+		// independent reference, so that a history effect present in the serial run too (object lifetimes, finalizers) is not masked
+		refc := sm4ref.New(s.key)
 		want := make([][][]byte, ng)
 		for g := range plan {
 			for _, op := range plan[g] {
-				want[g] = append(want[g], s.run(op))
+				got := s.run(op)
+				want[g] = append(want[g], got)
+				var exp []byte
+				switch op.kind {
+				case "encrypt":
+					exp = make([]byte, 16)
+					refc.Encrypt(exp, s.blocks[op.i])
+				case "decrypt":
+					exp = make([]byte, 16)
+					refc.Decrypt(exp, s.blocks[op.i])
+				case "derive-aead":
+					exp = gcmref.Seal(refc, s.blocks[op.i][:12], s.data[op.i], s.blocks[(op.i+1)%3], 16)
+				case "seal":
+					m := s.msgs[op.i]
+					exp = gcmref.Seal(refc, m.nonce, m.pt, m.aad, cfgs[m.aead].tag)
+				}
+				if exp != nil && !bytes.Equal(got, exp) {
+					vt.Fail(t, rec, "C17:serial-differs-from-reference", "in the serial pass of a workload (objects shared, AEADs derived and dropped, GC cycles) operation %s (i=%d) differs from the reference\n got %x\nwant %x", op.kind, op.i, got, exp)
+					return
+				}
 			}
 		}
 		snapBufs := func() [][]byte {
